@@ -4,6 +4,7 @@ use crate::{
     model::{
         TryFromNode,
         field::{as_field_name, rename_keywords, resolve_type},
+        rust_str,
     },
     reader::WriteXml,
 };
@@ -79,7 +80,11 @@ where
         )?;
         writeln!(writer, "        Self {{")?;
         writeln!(writer, "            client: reqwest::Client::new(),")?;
-        writeln!(writer, "            location: \"{}\".to_string(),", self.location)?;
+        writeln!(
+            writer,
+            "            location: \"{}\".to_string(),",
+            rust_str(self.location.as_str())
+        )?;
         writeln!(writer, "            credentials,")?;
         writeln!(writer, "        }}")?;
         writeln!(writer, "    }}")?;
